@@ -439,6 +439,7 @@ def track(S, oV, oF, fo, vo, want_src, opt, sigp):
     used = opt.pool if opt.pool is not None else set()
     src, prm = [], []
     unambiguous = True
+    perm_amb = set()
     last = -1
     for j in range(nfo):
         # ---- stage 1: geometry
@@ -451,16 +452,25 @@ def track(S, oV, oF, fo, vo, want_src, opt, sigp):
                         c1.append((i, p))
                         break
         else:
-            got_i = set()
+            # per source face the corner order that fits best; when two corners of a face lie within the tolerance of
+            # each other several orders fit and the vertex relation through this face is not certain
+            best = {}
             lim = opt.tol + 4 * EPS * S.vmax
             for p in perms:
                 with np.errstate(all="ignore"):
                     dd = np.abs(S.Tp[p] - oT[j]).max(axis=(1, 2))
                 for i in np.nonzero(dd <= lim)[0]:
-                    if int(i) not in got_i:
-                        got_i.add(int(i))
-                        c1.append((int(i), p))
-            c1 = sorted(ip for ip in c1 if ip[0] not in opt.exclude)
+                    i = int(i)
+                    if i in opt.exclude:
+                        continue
+                    if i not in best:
+                        best[i] = [float(dd[i]), p, 1]
+                    else:
+                        best[i][2] += 1
+                        if float(dd[i]) < best[i][0]:
+                            best[i][0], best[i][1] = float(dd[i]), p
+            c1 = sorted((i, b[1]) for i, b in best.items())
+            perm_amb.update(i for i, b in best.items() if b[2] > 1)
         if not c1:
             if want_src is not None:
                 i = int(want_src[j])
@@ -530,6 +540,8 @@ def track(S, oV, oF, fo, vo, want_src, opt, sigp):
             if len({i for i, _ in free}) > 1:
                 unambiguous = False
             i, p = min(free)
+            if i in perm_amb:
+                unambiguous = False
             used.add(i)
             last = i
         else:
